@@ -464,3 +464,78 @@ func c11NoNegativeChannelSize(c *Check, rule string) {
 		c.Fail(rule, "sites", token.NoPos, "anchor unresolved: no buffered channel is created in the limiter packages")
 	}
 }
+
+// ---- C10.R14: what the queue hands on shares no table with what it stores.
+// Queue.deliver gives the downstream target `meta.MsgMeta.DeepCopy()`. The downstream of a queue is usually a message
+// pipeline, and a pipeline records every rewrite it performs in the OriginalRcpts table of the metadata it was handed.
+// With a copy that still refers to the record's own table, those entries land in the queue's record, are persisted
+// with the next update and are handed on at every retry and after a restart – the original-recipient mapping the
+// queue hands on is no longer the one it accepted, and the failure report reads a stranger's entry when a rewritten
+// address equals a pending recipient. Decided on MsgMetadata.DeepCopy: for every map-typed field of the structure the
+// copy's field is assigned (a fresh table) on every path on which the source's table exists.
+func c10CopyIsDeepForTables(c *Check, rule string) {
+	c.Rule(rule, "MsgMetadata.DeepCopy gives the copy its own table for every map-typed field (OriginalRcpts): what a downstream pipeline records in the copy handed to it by the queue never reaches the stored record", 1)
+	r := c.need(rule, "framework/module", "MsgMetadata", "DeepCopy")
+	if r == nil {
+		return
+	}
+	info := r.Info
+	nt, _ := derefNamed(r.FI.Obj.Type().(*types.Signature).Recv().Type())
+	if nt == nil {
+		c.Fail(rule, "DeepCopy:receiver", r.FI.Decl.Pos(), "undecided: receiver type")
+		return
+	}
+	st, ok := nt.Underlying().(*types.Struct)
+	if !ok {
+		c.Fail(rule, "DeepCopy:receiver", r.FI.Decl.Pos(), "undecided: receiver is not a structure")
+		return
+	}
+	n := 0
+	for i := 0; i < st.NumFields(); i++ {
+		fv := st.Field(i)
+		if _, isMap := fv.Type().Underlying().(*types.Map); !isMap {
+			continue
+		}
+		n++
+		var stores []Pt
+		for _, pt := range r.F.Points() {
+			as, isAs := pt.Node().(*ast.AssignStmt)
+			if !isAs {
+				continue
+			}
+			for _, l := range as.Lhs {
+				if fieldOf(info, l) == fv {
+					if _, isIdx := ast.Unparen(l).(*ast.IndexExpr); !isIdx {
+						stores = append(stores, pt)
+					}
+				}
+			}
+		}
+		world := r.F.World(func(atom ast.Expr) (bool, bool) {
+			be, isBE := ast.Unparen(atom).(*ast.BinaryExpr)
+			if !isBE || (be.Op != token.EQL && be.Op != token.NEQ) || !isNilIdent(info, be.Y) || fieldOf(info, be.X) != fv {
+				return false, false
+			}
+			return be.Op == token.NEQ, true // the world "the source has a table"
+		})
+		path, found := r.F.Reach(Query{From: r.Entry(), Inclusive: true, Target: r.F.IsExitPt, Avoid: isPt(stores), AvoidEdge: world})
+		msg := ""
+		if len(stores) == 0 {
+			msg = "DeepCopy never assigns the copy's " + fv.Name() + ": the copy refers to the source's table – a pipeline behind the queue records its rewrites in the queue's own record (persisted, handed on at every retry and after a restart; the failure report can read an entry the downstream wrote)"
+		} else if found {
+			msg = "a path through DeepCopy leaves the copy's " + fv.Name() + " referring to the source's table (" + r.F.Describe(path) + ")"
+		}
+		c.Hold(rule, "DeepCopy:"+fv.Name(), r.FI.Decl.Pos(), msg == "", msg)
+	}
+	if n == 0 {
+		c.HoldConst(rule, "DeepCopy:no-map-fields", r.FI.Decl.Pos(), true, "")
+	}
+}
+
+func derefNamed(t types.Type) (*types.Named, bool) {
+	if p, ok := t.Underlying().(*types.Pointer); ok {
+		t = p.Elem()
+	}
+	nt, ok := types.Unalias(t).(*types.Named)
+	return nt, ok
+}
